@@ -521,6 +521,11 @@ func runCheck(id, tier string, verbose bool, only string, workers int, noval boo
 				unexplained = 0
 			}
 		}
+		if got == "TIMEOUT" && confirmedLabels[j.Harness+"\x00no-deadlock"] {
+			// a native hang where a deadlock was confirmed and reported
+			validated++
+			continue
+		}
 		if got != want || strings.Join(r.Observes, ",") != strings.Join(exp.Observes, ",") || unexplained > 0 {
 			problems = append(problems, fmt.Sprintf("translator validation mismatch on %s: engine end=%s obs=%v, native end=%s obs=%v fails=%v vector=%v", j.Harness, want, exp.Observes, r.End, r.Observes, r.Fails, j.Vector))
 			continue
